@@ -4,6 +4,7 @@ package main
 
 import (
 	"fmt"
+	"go/token"
 	"strings"
 
 	"golang.org/x/tools/go/ssa"
@@ -36,6 +37,7 @@ func checkC17(c *Ctx) {
 	c17Envelope(c)
 	c17Asserts(c)
 	c17Unpad(c)
+	c17Pad(c)
 
 	var fs []*ssa.Function
 	for _, n := range []string{"ber2der", "readObject", "isIndefiniteTermination", "encodeLength", "marshalLongLength", "lengthLength", "ParsePKCS7", "parseSignedData", "parseEnvelopedData", "verifySignature", "unmarshalAttribute", "marshalAttributes", "(*PKCS7).Decrypt", "(*PKCS7).DecryptSM2", "encryptedContentInfo.decrypt", "pad", "unpad", "selectRecipientForCertificate", "getCertFromCertsByIssuerAndSerial", "rawCertificates.Parse", "asn1Structured.EncodeTo", "asn1Primitive.EncodeTo"} {
@@ -527,5 +529,102 @@ func c17KeyBag(c *Ctx) {
 	}
 	if !found {
 		c.Undecided(rule, fname(m), "asn1.Marshal of the EC private key", "call not found", m.Pos())
+	}
+}
+
+// c17Pad: the PKCS#7 padding that the enveloped-data encryptors apply before CBC always adds between 1 and
+// blocklen bytes (block-aligned content gets a whole extra block): the reader's unpad, which always strips a pad,
+// is only the inverse of such a writer. Proved with the linear prover at every successful return of x509.pad.
+func c17Pad(c *Ctx) {
+	rule := "K-C17-pad"
+	f := c.Fn("x509", "pad")
+	if f == nil {
+		c.Missing(rule, "x509.pad", "function", "not found")
+		return
+	}
+	var data, blocklen ssa.Value
+	for _, p := range f.Params {
+		switch {
+		case isByteSlice(p.Type()):
+			data = p
+		case strings.HasSuffix(p.Type().String(), "int"):
+			blocklen = p
+		}
+	}
+	if data == nil || blocklen == nil {
+		c.Undecided(rule, fname(f), "parameters (data []byte, blocklen int)", "not identified", f.Pos())
+		return
+	}
+	spec, _ := defaultResultSpec(f)
+	ex := successExits(f, spec)
+	lb := &LB{p: c.P, f: f, UsedContracts: map[string]bool{}}
+	n := 0
+	for _, b := range f.Blocks {
+		ret, ok := b.Instrs[len(b.Instrs)-1].(*ssa.Return)
+		if !ok || !ex.blocks[b] || len(ret.Results) == 0 {
+			continue
+		}
+		n++
+		c.Evals++
+		out := lb.lenLin(unspill(ret.Results[0]))
+		in := lb.lenLin(data)
+		okLo := lb.prove([]cons{ge(out, in.addScaled(linConst(1), 1))}, b, nil, map[lvar]lin{}, 0)
+		okHi := lb.prove([]cons{le(out, in.addScaled(lb.linOf(blocklen), 1))}, b, nil, map[lvar]lin{}, 0)
+		c.Check(okLo && okHi, rule, fname(f), fmt.Sprintf("successful return #%d appends 1..blocklen pad bytes", n), "", fmt.Sprintf("not provable that len(result) is within len(data)+1 .. len(data)+blocklen (at least one pad byte: %v, at most a block: %v): block-aligned content would go out unpadded, and unpad then strips real data or rejects the message", okLo, okHi), ret.Pos())
+	}
+	if n == 0 {
+		c.Undecided(rule, fname(f), "successful returns", "none found", f.Pos())
+	}
+	// the pad length completes the block (blocklen - len%blocklen, a full block when that is 0) and is the pad byte
+	isS := func(v ssa.Value) bool {
+		sub, ok := v.(*ssa.BinOp)
+		if !ok || sub.Op != token.SUB || sub.X != blocklen {
+			return false
+		}
+		rem, ok := sub.Y.(*ssa.BinOp)
+		if !ok || rem.Op != token.REM || rem.Y != blocklen {
+			return false
+		}
+		return isLenOf(rem.X, func(x ssa.Value) bool { return x == data })
+	}
+	for _, call := range allCalls(f) {
+		cl, ok := call.(*ssa.Call)
+		if !ok || calleeID(&cl.Call) != "bytes.Repeat" {
+			continue
+		}
+		c.Evals++
+		p := cl.Call.Args[1]
+		okLen := isS(p)
+		if ph, isPhi := p.(*ssa.Phi); isPhi {
+			okLen = true
+			sawS := false
+			for _, e := range ph.Edges {
+				switch {
+				case isS(e):
+					sawS = true
+				case e == blocklen:
+				default:
+					okLen = false
+				}
+			}
+			okLen = okLen && sawS
+		}
+		okByte := false
+		if sl, isSl := cl.Call.Args[0].(*ssa.Slice); isSl {
+			if al, isAl := sl.X.(*ssa.Alloc); isAl {
+				for _, r := range *al.Referrers() {
+					if ia, isIA := r.(*ssa.IndexAddr); isIA {
+						for _, r2 := range *ia.Referrers() {
+							if st, isSt := r2.(*ssa.Store); isSt {
+								if cv, isCv := st.Val.(*ssa.Convert); isCv && cv.X == p {
+									okByte = true
+								}
+							}
+						}
+					}
+				}
+			}
+		}
+		c.Check(okLen && okByte, rule, fname(f), "pad length = blocklen - len(data)%blocklen (a whole block when aligned), pad byte = pad length", "", fmt.Sprintf("the pad is not the PKCS#7 one (length formula recognised: %v, pad byte is the length: %v)", okLen, okByte), cl.Pos())
 	}
 }
